@@ -80,6 +80,7 @@ fn c01_build(cfg: &[u16]) -> Built {
         (K::Drop, 4),
         (K::Quit, 2),
         (K::NewUser, 4),
+        (K::CapPost, 4),
     ]);
     Built { cfg: CfgSpec::default(), prof, prelude_users: users, setup }
 }
@@ -401,6 +402,7 @@ fn c10_build(cfg: &[u16]) -> Built {
         (K::Nick, 5),
         (K::Kick, 3),
         (K::NewUser, 3),
+        (K::CapPost, 3),
     ]);
     Built { cfg: CfgSpec::default(), prof, prelude_users: users, setup }
 }
@@ -899,7 +901,7 @@ fn c02_build(cfg: &[u16]) -> Built {
 // the absence of any effect of refused / unfinished connections (probes), the attribution of
 // relayed lines, and the survival of the legitimate owners.
 fn c02_owns(d: &Disc, out: &StepOut, _t: &Trace) -> bool {
-    let reg_ctx = ["REGLINE", "CONNECT", "CLOSEUNREG", "NICK", "NEWUSER"].contains(&out.ctx.as_str());
+    let reg_ctx = ["REGLINE", "CONNECT", "CLOSEUNREG", "NICK", "NEWUSER", "CAP", "PASS", "USER"].contains(&out.ctx.as_str());
     match d {
         Disc::Panic { .. } | Disc::UnexpectedClose { .. } => true,
         Disc::Framing { .. } | Disc::Malformed { .. } => false,
@@ -909,7 +911,7 @@ fn c02_owns(d: &Disc, out: &StepOut, _t: &Trace) -> bool {
                 // connection that is not registered
                 return reg_ctx;
             }
-            reg_ctx && ["001", "433", "451", "303", "311", "318", "353", "352", "319", "251", "255", "265", "266", "302", "401"].contains(&line[1].as_str())
+            reg_ctx && ["001", "433", "451", "462", "303", "311", "318", "353", "352", "319", "251", "255", "265", "266", "302", "401", "CAP"].contains(&line[1].as_str())
         }
         _ => reg_ctx,
     }
@@ -1027,7 +1029,7 @@ fn c03_build(cfg: &[u16]) -> Built {
 }
 
 fn c03_owns(d: &Disc, out: &StepOut, _t: &Trace) -> bool {
-    let reg_ctx = ["REGLINE", "CONNECT", "CLOSEUNREG", "NEWUSER", "PRELUDE"].contains(&out.ctx.as_str());
+    let reg_ctx = ["REGLINE", "CONNECT", "CLOSEUNREG", "NEWUSER", "PRELUDE", "CAP", "PASS", "USER"].contains(&out.ctx.as_str());
     reg_ctx && !matches!(d, Disc::Framing { .. } | Disc::Malformed { .. })
 }
 
